@@ -11,5 +11,6 @@ CONSTANTS
   FwdHonoursTerm = TRUE
   InitViaQueue = TRUE
   ClearCache = TRUE
+  DrainKeepsTerm = FALSE
 INVARIANTS TypeOK WireSeqOrdered WireSeqOrderedMon OneResponsePerRequest EventsOnceAndCausal
   NoEventAfterTerminated FailureIsErrorResponse NoEventAfterTerminatedW AtMostOneResponseW
